@@ -33,7 +33,12 @@ package ice
 //@   site call Split#1 assert splits-the-username-at-the-colon: arg1 == ":"
 //@   site call Split#1 ghost parts0 := result[0]
 //@   site call getConn#1 assert ufrag-is-the-part-before-the-colon: arg1 == parts0 && arg1 == ufrag
-//@   site call getConn#1 assert family-of-the-source: arg2 == isIPv6 && arg0 == m
+//@   ghostvar canonicalIs6 bool = false
+//@   ghostvar familyTaken bool = false
+//@   site call Addr#1 assert family-is-taken-from-the-canonical-source: arg0 == srcAddr
+//@   site call Is6#1 ghost canonicalIs6 := result
+//@   site call Is6#1 ghost familyTaken := true
+//@   site call getConn#1 assert family-of-the-canonical-source: familyTaken && arg2 == canonicalIs6 && arg2 == isIPv6 && arg0 == m
 //@   site call getConn#1 ghost viaUfrag := true
 //@   site call writePacket#1 assert never-to-nobody: arg0 != nil && arg0 == destinationConn
 //@   site call writePacket#1 assert address-binding-wins: byAddr != 0 ==> arg0 == cast(byAddr, *udpMuxedConn)
